@@ -147,18 +147,21 @@ theorem freshC_spec : Hoare (CL X) freshC (fun s => CL (s :: X)) (PanicOnly (CL 
   exact ⟨fun w h => CLF.fresh h⟩
 
 /-- the destructor of a cell runs: the serial leaves `X` -/
-theorem dropCell_cl (ty : Nat) (c : Cell) : LK (CL (c.ser :: X)) (dropCell ty c) (CL X) := by
+theorem dropCell_cl {E : Err → World → Prop} (ty : Nat) (c : Cell) :
+    Hoare (CL (c.ser :: X)) (dropCell ty c) (fun _ => CL X) E := by
   unfold dropCell
   split
   · exact ⟨fun w h => CLF.dropped ty c.ser h⟩
   · exact Hoare.pure fun w h => CLF.forget c.ser h
 
-theorem dropCellIdx_cl (idx : Nat) (c : Cell) : LK (CL (c.ser :: X)) (dropCellIdx idx c) (CL X) := by
+theorem dropCellIdx_cl {E : Err → World → Prop} (idx : Nat) (c : Cell) :
+    Hoare (CL (c.ser :: X)) (dropCellIdx idx c) (fun _ => CL X) E := by
   unfold dropCellIdx
   exact Hoare.get_bind fun w _ => dropCell_cl _ c
 
 /-- an event value is destroyed: an `Insert` payload leaves `X` -/
-theorem dropEvent_cl (it : QItem) : LK (CL (itemSers it ++ X)) (dropEvent it) (CL X) := by
+theorem dropEvent_cl {E : Err → World → Prop} (it : QItem) :
+    Hoare (CL (itemSers it ++ X)) (dropEvent it) (fun _ => CL X) E := by
   unfold dropEvent
   split
   · exact ⟨fun w h => CLF.drop_left h⟩
@@ -168,7 +171,8 @@ theorem dropEvent_cl (it : QItem) : LK (CL (itemSers it ++ X)) (dropEvent it) (C
   · exact Hoare.pure fun w h => CLF.drop_left h
 
 /-- an event is queued: an `Insert` payload moves from `X` onto the queue -/
-theorem push_cl (it : QItem) : LK (CL (itemSers it ++ X)) (push it) (CL X) := by
+theorem push_cl {E : Err → World → Prop} (it : QItem) :
+    Hoare (CL (itemSers it ++ X)) (push it) (fun _ => CL X) E := by
   unfold push
   exact ⟨fun w h => CLF.push it h⟩
 
